@@ -126,6 +126,9 @@ GSFA_SHRINK = [{"file": "gsfa/gsfa-write.go", "rules": [
     {"old": "100_000", "new": "5"},
     {"old": "slot%500", "new": "slot%5"},
     {"old": "1 * time.Second", "new": "5 * time.Millisecond"},
+    # popularity rank keeps only the keys with the single highest flush count, so that the periodic
+    # partial flush can also pick addresses that still have a full batch parked in the background writer
+    {"old": "10_000", "new": "1"},
 ]}]
 
 PROPS["C06"] = {
